@@ -7,12 +7,6 @@ COMP = "svclife"
 
 # genuine mismatches between the property and the code: replayed on the implementation in every run
 FINDINGS = {
-    "finding:slice-payload-zero-limit-panics":
-        "publish_subscribe builders for slice payloads ([T], and every language binding, which uses [CustomPayloadMarker]) do not call "
-        "adjust_configuration_to_meaningful_values (builder/publish_subscribe.rs:1006-1064 vs :899-921): max_publishers(0), max_subscribers(0) "
-        "or max_nodes(0) reach the dynamic config, whose container initialisation fails -> fatal panic inside create / open_or_create instead of "
-        "a service or a documented error; the half-built dynamic config (0200, version 0) stays in /dev/shm "
-        "(theorem create_outcome_documented_false; the Sized builders adjust 0 to 1: clamped_create_never_panics)",
     "finding:same-node-concurrent-create-removes-service-tag":
         "Node::create_service_tag treats AlreadyExists as `this node already uses the service` (node/mod.rs:1083-1103) and returns None; when two "
         "threads of one node call create (or create / open) for the same service concurrently (builders are Send), the thread that made the tag "
@@ -20,7 +14,6 @@ FINDINGS = {
         "thread, which got None, completes: the node is registered in the service but has no service tag, so the tag-driven dead-node cleanup "
         "will never deregister it (theorem user_has_tag_false, Iox2/Props/C06Conc.lean; user_has_tag_partial holds for distinct nodes)",
 }
-SLICE_CASE = ["new ipc", "node 0", "create 0 0 0 ps ms=0 t=su8"]
 
 
 # ------------------------------------------------------------------------------------------
@@ -43,8 +36,6 @@ def classify(case, idx, impl_out, model_out):
     if "ORACLE[" in impl_out:
         tail = impl_out.split("ORACLE[", 1)[1].rstrip("]")
         return "oracle:" + re.sub(r"[^a-z]+", "-", re.sub(r"s\d+:", "", tail.lower()))[:60].strip("-")
-    if impl_out == "PANIC" and model_out == "PANIC":
-        return None
     if impl_out == "PANIC":
         return "panic-not-in-model:" + op[0]
     if op[0] in ("create", "open", "ooc"):
@@ -53,11 +44,11 @@ def classify(case, idx, impl_out, model_out):
 
 
 def line_oracle(case, idx, base):
-    """property (e) on the implementation's answer alone: a call never ends in a panic"""
+    """property (e) on the implementation's answer alone: a call never ends in a panic (the former finding
+    slice-payload-zero-limit-panics, fixed by 0c61d51, would show up here as a violation; the matrix generator
+    keeps producing zero limits with slice / custom payloads)"""
     if base == "PANIC":
-        op = case[idx][0].split(" ")
-        slice_zero = op[0] in ("create", "ooc") and any(t in ("t=su8",) or t.startswith("t=x") for t in op) and any(t in ("mp=0", "ms=0", "mn=0") for t in op)
-        return "finding:slice-payload-zero-limit-panics" if slice_zero else "panic:" + op[0]
+        return "panic:" + case[idx][0].split(" ")[0]
     return None
 
 
@@ -166,11 +157,6 @@ def diff(ctx, jobs):
     ctx.log(f"[svclife] {sum(v[1] for v in per_label.values())} ops compared, {len(bad)} mismatch / oracle class(es) ({time.time()-t:.1f}s)")
     for key, (label, c, i, iout, mout) in list(bad.items())[:6]:
         ops = [op for (op, _) in c[: i + 1]]
-        if key in FINDINGS:
-            small = shrink(ops, key)
-            impl_lines, model_lines = replay_case(small)
-            report_finding(ctx, key, dict(engine="svclife", component=COMP, ops=small, impl=impl_lines, model=model_lines), f"`{small[-1]}` => PANIC")
-            continue
         small = shrink(ops, key)
         impl_lines, model_lines = replay_case(small)
         if "ORACLE[" in iout:
@@ -310,15 +296,6 @@ def stress(ctx, rounds, creators, openers):
 
 
 def replay_findings(ctx, samenode_rounds):
-    impl, model = replay_case(SLICE_CASE)
-    ctx.count("findings.replayed")
-    if impl and impl[-1] == "PANIC":
-        report_finding(ctx, "finding:slice-payload-zero-limit-panics", dict(engine="svclife", component=COMP, ops=SLICE_CASE, impl=impl, model=model),
-                       f"`{SLICE_CASE[-1]}` => PANIC")
-    else:
-        ctx.log(f"[finding] slice-payload-zero-limit-panics no longer reproduces (`{SLICE_CASE[-1]}` => {impl[-1] if impl else '?'}); "
-                "the refutation create_outcome_documented_false is about the old behaviour")
-        ctx.extra.setdefault("findings_gone", []).append("finding:slice-payload-zero-limit-panics")
     p = subprocess.run([SVCLIFE, "stress", str(samenode_rounds), "0", "0", str(ctx.seed), "samenode"], capture_output=True, text=True, timeout=1200)
     m = re.search(r"winner-without-tag (\d+)", p.stdout)
     ctx.count("findings.replayed")
